@@ -1,9 +1,11 @@
 from ..framework import Spec
 from ..ties_sys import sys_tie, paste_oracle, scenario_tie, fault_sweep_tie
-from ..scenarios import gen_include_scenario
+from ..scenarios import gen_include_scenario, gen_cond_scenario
 
 SPEC = Spec(pid='C17', coq_needs=['Base', 'Program', 'ProgramProofs', 'ReaderProofs', 'Properties/C17'],
             ties=[sys_tie('C17', n_quick=350), scenario_tie('include_trees', gen_include_scenario, 200, 3000),
+                  # includes inside conditional branches (selected or not, resolvable or not)
+                  scenario_tie('cond_programs', gen_cond_scenario, 150, 3000),
                   fault_sweep_tie(['diamond_include', 'nested_dup_include', 'dup_include', 'missing_include', 'ambiguous_include',
                                    'includer_file_label', 'cross_file'])],
             oracles=[paste_oracle()])
